@@ -198,9 +198,11 @@ func (engine *Engine) DialAsyncTimeout(network, addr string, timeout time.Durati
 		rAddr: raddr,
 		typ:   connType,
 	}
-	if inprogress {
-		c.onConnected = h
-	}
+	// A connect that completed at once is reported by the poller as well, on
+	// the first writing event, like one that was in progress: the report is
+	// then always ahead of whatever the poller sees next on the connection
+	// (a peer that closes right away must not be announced first).
+	c.onConnected = h
 	switch vt := sa.(type) {
 	case *syscall.SockaddrInet4:
 		switch connType {
@@ -256,11 +258,7 @@ func (engine *Engine) DialAsyncTimeout(network, addr string, timeout time.Durati
 		return err
 	}
 
-	if !inprogress {
-		engine.Async(func() {
-			h(c, nil)
-		})
-	} else if timeout > 0 {
+	if inprogress && timeout > 0 {
 		c.mux.Lock()
 		// the connect may have completed already: its outcome is reported
 		// and the timeout is over, it must not close the connection later.
